@@ -168,13 +168,6 @@ func runCase(c *kit.Case) {
 		m.NewFrames()
 		m.NewEvents()
 	}
-	presBefore := [2]map[string][]string{{}, {}}
-	for ni := range p.Nodes {
-		for _, ch := range channels {
-			presBefore[ni][ch] = p.Presence(ni, ch)
-		}
-	}
-
 	err := p.Nodes[0].Unsubscribe(call.User, "", opts...)
 	if err != nil {
 		c.Violation("c28-empty-channel-unsubscribe-returns-error", "Node.Unsubscribe(user, \"\") returned "+err.Error(), call)
@@ -352,7 +345,6 @@ func runCase(c *kit.Case) {
 			}
 		}
 	}
-	_ = presBefore
 	if nMatchSubscribed > 0 {
 		sort.Strings(sig)
 		c.Nontrivial(fmt.Sprintf("%v|all=%v|client=%v|session=%v|filter=%v|custom=%v|%v", call.User, call.AllUsers, call.ClientOf != "", call.SessionOf != "", call.Filter != "", call.CustomCode != 0, sig))
